@@ -36,6 +36,7 @@ def act? : Sexp → Option Act
   | .list [.atom "failF"] => some .failF
   | .list [.atom "condFalse", b] => do pure (.condFalse (← b.bool?))
   | .list [.atom "condTrue"] => some .condTrue
+  | .list [.atom "name", n, m, al] => do pure (.name (← chars? n) (← m.bool?) (← al.bool?))
   | _ => none
 
 def kind? : Sexp → Option Kind
@@ -86,6 +87,7 @@ def tokSexp : Parse.Tok → Sexp
   | .s v => ofChars v
   | .n v => ofNat v
   | .g ts => .list (toksSexp ts)
+  | .nm n m al ts => .list [.atom "nm", ofChars n, ofBool m, ofBool al, .list (toksSexp ts)]
 def toksSexp : List Parse.Tok → List Sexp
   | [] => []
   | t :: ts => tokSexp t :: toksSexp ts
@@ -97,17 +99,22 @@ def excName : Exc → String
   | .syntax => "syntax"
 
 def outSexp : Out → Sexp
-  | .ok e ts => .list [.atom "ok", ofNat e, .list (toksSexp ts)]
+  | .ok e ts => .list [.atom "ok", ofNat e, .list (toksSexp (flatL ts))]
   | .fail c l => .list [.atom "fail", .atom (excName c), ofNat l]
   | .idx => .atom "idx"
   | .hang => .atom "hang"
 
 /-- parse_string does not reveal the end location -/
 def outSexpNoEnd : Out → Sexp
-  | .ok _ ts => .list [.atom "ok", .list (toksSexp ts)]
+  | .ok _ ts => .list [.atom "ok", .list (toksSexp (flatL ts))]
   | o => outSexp o
 
-def matchSexp (m : Match) : Sexp := .list [.list (toksSexp m.toks), ofNat m.start, ofNat m.stop]
+def matchSexp (m : Match) : Sexp := .list [.list (toksSexp (flatL m.toks)), ofNat m.start, ofNat m.stop]
+
+/-- with the results-name annotations (C05) -/
+def outSexpNames : Out → Sexp
+  | .ok _ ts => .list [.atom "ok", .list (toksSexp ts)]
+  | o => outSexp o
 
 def scanSexp (r : ScanR) : Sexp :=
   .list [.atom "scan", .list (r.ms.map matchSexp), match r.exc with
@@ -140,6 +147,7 @@ def parseHandle : List Sexp → Option Sexp
       let p ← mkP mode g s fuel
       match entry, opts with
       | "parse", [] => pure (outSexpNoEnd (parseString p g root dw s false))
+      | "parseNames", [] => pure (outSexpNames (parseString p g root dw s false))
       | "parseAll", [] => pure (outSexpNoEnd (parseString p g root dw s true))
       | "scan", [mm, sk, ov] => do
           pure (scanSexp (scanString p g root s (← mm.nat?) (← sk.bool?) (← ov.bool?)))
